@@ -301,7 +301,8 @@ while i < len(lines):
                 live_lo = live_hi = 2
                 for k in range(1, n):
                     if not created[k]: continue
-                    if k in maybe_dead_empty: live_hi += 1            # empty program: dead once it was scheduled
+                    if k == t: live_lo += 1; live_hi += 1             # the caller itself is running
+                    elif k in maybe_dead_empty: live_hi += 1          # empty program: dead once it was scheduled
                     elif not finished(k): live_lo += 1; live_hi += 1
                 if not (live_lo <= ret <= live_hi):
                     return 'nthreads = %d, but main + idler + %d..%d live created threads exist' % (ret, live_lo - 2, live_hi - 2)
@@ -341,22 +342,27 @@ while i < len(lines):
         #    are asserted, with generous limits)
         secs = 3 if ctx['tier'] == 'quick' else 15
         #    M: migration + cross-vCPU interrupt/join, work stealing OFF: the run-queue lock has no background side
-        #       (F5 cannot fire) and no READY thread is ever taken by another vCPU (F20 cannot fire): must be clean
+        #       (F5 cannot fire) and no READY thread is ever taken by another vCPU (F23 cannot fire): must be clean
         rc, out = sh([self.stress, 'M', str(secs), str(ctx['seed'])], timeout=secs * 20 + 120, env=env)
         cov['stress_migrate'] = out.strip()[-400:]
         if rc != 0 or 'STRESS-OK' not in out:
             viol.append(dict(kind='oracle', message='multi-vCPU stress (migrate/interrupt/join, stealing off) failed: ' + out.strip()[-600:],
                              case='stress M %d %d' % (secs, ctx['seed'])))
-        #    S: work stealing ON, stealable threads never yield (the F20 window stays closed).  The asymmetric lock is
+        #    S: work stealing ON, stealable threads never yield (the F23 window stays closed).  The asymmetric lock is
         #       used from both sides, so a failure here cannot be told from known finding F5: reported, not a VIOLATION
         rc, out = sh([self.stress, 'S', str(secs), str(ctx['seed'])], timeout=secs * 20 + 120, env=env)
         cov['stress_steal'] = out.strip()[-400:]
         if rc != 0 or 'STRESS-OK' not in out:
             print('[C05] SUSPECT (class of known finding F5): stress run with work stealing failed: %s' % out.strip()[-400:])
-        #    Y: confirmation run for F20 (a thread that has just yielded is stolen before its context is saved)
+        #    Y: confirmation run for F23 (a thread that has just yielded is stolen before its context is saved)
         rc, out = sh([self.stress, 'Y', str(secs), str(ctx['seed'])], timeout=secs * 20 + 120, env=env)
-        cov['stress_F20'] = out.strip()[-400:]
-        if 'F20-CONFIRMED' in out:
-            print('[C05] F20 confirmed on the real library: %s' % out.strip().splitlines()[-1][:300])
+        cov['stress_F23'] = out.strip()[-400:]
+        if 'F23-CONFIRMED' in out:
+            print('[C05] F23 confirmed on the real library: %s' % out.strip().splitlines()[-1][:300])
+        #    J: confirmation run for F24 (ThreadPoolBase::join ended early by an interrupt of the joining thread)
+        rc, out = sh([self.stress, 'J', '1', str(ctx['seed'])], timeout=120, env=env)
+        cov['stress_F24'] = out.strip()[-300:]
+        if 'F24-CONFIRMED' in out:
+            print('[C05] F24 confirmed on the real library: %s' % out.strip().splitlines()[-1][:300])
         self.extra_coverage = cov
         return viol
